@@ -252,13 +252,13 @@ theorem signer_ne_panic (v : Variant) (t : Tables) (priv pub : Bool) (script : L
               · cases h6
               · split at h6 <;> cases h6
 
-/-- `Signer` succeeds only when every exchange it made was accepted: one to three GetAttributes responses
+/-- `Signer` succeeds only when every exchange it made was accepted: two GetAttributes responses
     followed by one Get response, each a single successful item carrying the response payload of the
     requested operation; and the public key material could be parsed. With the checked variant the key kind
     also agrees with the algorithm announced by the attributes. -/
 theorem signer_ok (v : Variant) (t : Tables) (priv pub : Bool) (script : List Answer) (s : SignerVal)
     (rest : List Answer) (h : signer v t priv pub script = .ok (s, rest)) :
-    ∃ gas g, script = gas ++ g :: rest ∧ 1 ≤ gas.length ∧ gas.length ≤ 3 ∧
+    ∃ gas g, script = gas ++ g :: rest ∧ gas.length = 2 ∧
       (∀ a ∈ gas, Accepted opGetAttributes a) ∧ Accepted opGet g ∧ g.key = some s.key ∧
       (v.checkedKey = true → keyMatches s.alg s.key = true) := by
   unfold signer at h
@@ -313,7 +313,7 @@ theorem signer_ok (v : Variant) (t : Tables) (priv pub : Bool) (script : List An
         obtain ⟨⟨st1, r1⟩, hv1, hr1⟩ := SRes.bind_ok _ _ _ h1
         simp only [SRes.ok.injEq, Prod.mk.injEq] at hr1 h5
         obtain ⟨a1, hs1, hacc1⟩ := verifyKey_ok v t _ _ _ script st1 r1 hv1
-        refine ⟨[a1, a2], g, ?_, by simp, by simp, ?_, haccg, hkey, hmatch⟩
+        refine ⟨[a1, a2], g, ?_, rfl, ?_, haccg, hkey, hmatch⟩
         · rw [hs1, hr1.2.2, hs2, h5.2, hs3]; rfl
         · intro a ha
           simp only [List.mem_cons, List.not_mem_nil, or_false] at ha
@@ -328,7 +328,7 @@ theorem signer_ok (v : Variant) (t : Tables) (priv pub : Bool) (script : List An
         · obtain ⟨⟨st3, r3⟩, hv3, hr3⟩ := SRes.bind_ok _ _ _ h5
           simp only [SRes.ok.injEq, Prod.mk.injEq] at hr3
           obtain ⟨a3, hs3', hacc3⟩ := verifyKey_ok v t _ _ _ rest2 st3 r3 hv3
-          refine ⟨[a2, a3], g, ?_, by simp, by simp, ?_, haccg, hkey, hmatch⟩
+          refine ⟨[a2, a3], g, ?_, rfl, ?_, haccg, hkey, hmatch⟩
           · rw [h1.2.2, hs2, hs3', hr3.2, hs3]; rfl
           · intro a ha
             simp only [List.mem_cons, List.not_mem_nil, or_false] at ha
